@@ -419,7 +419,7 @@ func splitStorm(c *Ctx, n int) {
 		{"{id}/author", "7/author", "{id}/abd/x"},
 		{`/n/{d:\d+}/author/x`, "/n/7/author/x", `/n/{d:\d+}/a`},
 	}
-	var bad atomic.Int64
+	var bad, stormOps atomic.Int64
 	var firstMsg atomic.Value
 	for i := 0; i < n; i++ {
 		sh := shapes[r.Intn(len(shapes))]
@@ -436,6 +436,7 @@ func splitStorm(c *Ctx, n int) {
 				defer wg.Done()
 				<-start
 				for k := 0; k < 6; k++ {
+					stormOps.Add(1)
 					if g == 0 {
 						u, err := func() (s string, err error) {
 							defer func() {
@@ -465,9 +466,14 @@ func splitStorm(c *Ctx, n int) {
 			<-start
 			runtime.Gosched()
 			tryHandle(rt, sh.add, env.NewHnd(mon.KRoute, sh.add), []string{"GET"})
+			stormOps.Add(1)
 		}()
 		close(start)
-		wg.Wait()
+		done := make(chan struct{})
+		go func() { wg.Wait(); close(done) }()
+		if !c06Await(c, done, func() int64 { return stormOps.Load() }, "requests and strict URL beside a registration that splits their node") {
+			return
+		}
 	}
 	c.EvalN(n)
 	c.ClassN("split_storm_routers", n)
@@ -762,7 +768,13 @@ func runC06(c *Ctx) {
 			}
 		}(rd)
 	}
-	wg.Wait()
+	{
+		done := make(chan struct{})
+		go func() { wg.Wait(); close(done) }()
+		if !c06Await(c, done, func() int64 { return x.clock.Load() + x.untouched.Load() }, "concurrent history") {
+			return
+		}
+	}
 
 	// quiescent again: for every toggled pattern the three views agree - Routes(), the Allow header of its OPTIONS answer
 	// and Node().Methods() (a value cached or published at the wrong moment during the history would stay wrong now)
@@ -913,6 +925,34 @@ func c06Witness(ops []porcupine.Operation, info porcupine.LinearizationInfo) any
 		}
 	}
 	return "no single partition isolated"
+}
+
+// c06Await waits for done while watching a progress counter. Bounded progress instead of "eventually": if not one
+// operation of any participant completes for c06StallSeconds (two minutes; an operation takes microseconds, and
+// every goroutine of the workload counts), readers and writers block each other - no response at all is not "a
+// response the router could have produced". The blocked goroutines are left behind; the case ends.
+const c06StallSeconds = 120
+
+func c06Await(c *Ctx, done <-chan struct{}, progress func() int64, what string) bool {
+	last, idle := progress(), 0
+	for {
+		select {
+		case <-done:
+			return true
+		case <-time.After(time.Second):
+		}
+		if p := progress(); p != last {
+			last, idle = p, 0
+			continue
+		}
+		idle++
+		if idle >= c06StallSeconds {
+			c.Violate(fmt.Sprintf("%s: no operation of any goroutine completed for %d s (%d had completed before): readers and writers of the WithLock router block each other", what, c06StallSeconds, last),
+				map[string]any{"operations_completed": last})
+			c.Abort()
+			return false
+		}
+	}
 }
 
 func c06CheckUntouched(x *c06Run, u cPattern, m, v, path string, o *mon.Obs) {
@@ -1218,18 +1258,27 @@ func c06InFlight() []Directed {
 			}
 			return true
 		}
-		for i := 0; i < n; i++ {
-			r.Handle("/h/{id}", env.NewHnd(mon.KRoute, "/h/{id}"), nil, "POST")
-			if i%4 == 0 && !own("GET,HEAD,OPTIONS,POST,TRACE") {
-				break
+		var toggles atomic.Int64
+		done := make(chan struct{})
+		go func() {
+			defer close(done)
+			for i := 0; i < n; i++ {
+				r.Handle("/h/{id}", env.NewHnd(mon.KRoute, "/h/{id}"), nil, "POST")
+				if i%4 == 0 && !own("GET,HEAD,OPTIONS,POST,TRACE") {
+					break
+				}
+				r.Remove("/h/{id}", "POST")
+				if i%4 == 2 && !own("GET,HEAD,OPTIONS,TRACE") {
+					break
+				}
+				toggles.Add(1)
 			}
-			r.Remove("/h/{id}", "POST")
-			if i%4 == 2 && !own("GET,HEAD,OPTIONS,TRACE") {
-				break
-			}
+			stop.Store(true)
+			wg.Wait()
+		}()
+		if !c06Await(c, done, func() int64 { return toggles.Load() + looks.Load() }, "hot toggle of one route") {
+			return
 		}
-		stop.Store(true)
-		wg.Wait()
 		c.EvalN(int(looks.Load()))
 		c.ClassN("hot_toggle_allow_views_looked_at", int(looks.Load()))
 		if len(bad) > 0 {
@@ -1293,16 +1342,25 @@ func c06InFlight() []Directed {
 					}
 				}()
 			}
-			for i := 0; i < n; i++ {
-				r.Handle("/t", env.NewHnd(mon.KRoute, "/t"), nil, "POST")
-				if i%3 == 0 {
-					r.Remove("/t")
-				} else {
-					r.Remove("/t", "POST")
+			var toggles atomic.Int64
+			done := make(chan struct{})
+			go func() {
+				defer close(done)
+				for i := 0; i < n; i++ {
+					r.Handle("/t", env.NewHnd(mon.KRoute, "/t"), nil, "POST")
+					if i%3 == 0 {
+						r.Remove("/t")
+					} else {
+						r.Remove("/t", "POST")
+					}
+					toggles.Add(1)
 				}
+				stop.Store(true)
+				wg.Wait()
+			}()
+			if !c06Await(c, done, func() int64 { return toggles.Load() + looks.Load() }, "hot toggle beside the server-wide method set") {
+				return
 			}
-			stop.Store(true)
-			wg.Wait()
 			c.EvalN(int(looks.Load()))
 			c.ClassN("hot_toggle_server_wide_allow_looked_at", int(looks.Load()))
 			if len(bad) > 0 {
